@@ -867,6 +867,7 @@ package main
 //@   ensures var-form: cas.Ftype == New_FType_FUnit && len(tparams) == 0 ==> result == "var New_" + uname + "_" + cas.Name + " " + uname + " = " + uname + "_" + cas.Name + "{}\n"
 //@   ensures func-form: !(cas.Ftype == New_FType_FUnit && len(tparams) == 0) ==> result == "func New_" + uname + "_" + cas.Name + tparams_decl(M, len(tparams)) + "(" + ite(cas.Ftype == New_FType_FUnit, "", "v " + go_type(cas.Ftype)) + ") " + uname + targs_list(tparams) + " { return " + uname + "_" + cas.Name + targs_list(tparams) + "{" + ite(cas.Ftype == New_FType_FUnit, "", "v") + "} }\n"
 //@   ensures mapped: forall k int :: 0 <= k && k < len(tparams) ==> M[k] == tparams[k] + " any"
+//@   ensures functional: result == case_ctor(uname, tparams, cas)
 //@   at after call csConstructFunc#0: M = c_M
 
 // struct U_C whose payload is the field Value
@@ -876,6 +877,7 @@ package main
 //@   panics may
 //@   ensures text: result == "type " + ud.Name + "_" + cas.Name + tparams_decl(M, len(ud.Tparams)) + " struct {\n" + ite(cas.Ftype == New_FType_FUnit, "", "  Value " + go_type(cas.Ftype) + "\n") + "}\n"
 //@   ensures mapped: forall k int :: 0 <= k && k < len(ud.Tparams) ==> M[k] == ud.Tparams[k] + " any"
+//@   ensures functional: result == case_struct(ud.Name, ud.Tparams, cas)
 //@   at after call writeTParamsIfAny#0: M = c_M
 
 // interface U with the marker method U_Union()
@@ -885,7 +887,66 @@ package main
 //@   panics never
 //@   ensures text: result == "type " + ud.Name + tparams_decl(M, len(ud.Tparams)) + " interface {\n  " + ud.Name + "_Union()\n}\n"
 //@   ensures mapped: forall k int :: 0 <= k && k < len(ud.Tparams) ==> M[k] == ud.Tparams[k] + " any"
+//@   ensures functional: result == union_iface(ud.Name, ud.Tparams)
 //@   at after call writeTParamsIfAny#0: M = c_M
+
+// the whole union definition: interface, marker methods, Stringer methods, then per case the struct and its
+// constructor - every part a function of the definition alone, cases in declaration order
+//@ func csToConformMethod
+//@   props C03
+//@   panics never
+//@   returns "func (" + uname + "_" + cas.Name + targs_list(tparams) + ") " + method
+
+//@ func udCSConformMethods
+//@   props C03
+//@   ghost CF []string
+//@   panics never
+//@   ensures text: result == join_prefix(CF, "", len(ud.Cases))
+//@   ensures each: forall k int :: 0 <= k && k < len(ud.Cases) ==> CF[k] == case_conform(ud.Name, ud.Tparams, ud.Cases[k])
+//@   at after call slice.Map#0: CF = ret
+
+//@ func csToStringerMethod
+//@   props C03
+//@   panics never
+//@   returns case_stringer(uname, tparams, cas)
+
+//@ func udCSStringerMethods
+//@   props C03
+//@   ghost ST []string
+//@   panics never
+//@   ensures text: result == join_prefix(ST, "", len(ud.Cases))
+//@   ensures each: forall k int :: 0 <= k && k < len(ud.Cases) ==> ST[k] == case_stringer(ud.Name, ud.Tparams, ud.Cases[k])
+//@   at after call slice.Map#0: ST = ret
+
+//@ func caseToGo
+//@   props C03
+//@   panics may
+//@   returns case_text(ud.Name, ud.Tparams, cas)
+
+//@ func udfToGo
+//@   props C03
+//@   ghost CF []string
+//@   ghost ST []string
+//@   ghost CS []string
+//@   panics may
+//@   ensures text: result == union_iface(ud.Name, ud.Tparams) + "\n" + join_prefix(CF, "", len(ud.Cases)) + "\n" + join_prefix(ST, "", len(ud.Cases)) + "\n" + join_prefix(CS, "", len(ud.Cases))
+//@   ensures conform: forall k int :: 0 <= k && k < len(ud.Cases) ==> CF[k] == case_conform(ud.Name, ud.Tparams, ud.Cases[k])
+//@   ensures stringer: forall k int :: 0 <= k && k < len(ud.Cases) ==> ST[k] == case_stringer(ud.Name, ud.Tparams, ud.Cases[k])
+//@   ensures cases: forall k int :: 0 <= k && k < len(ud.Cases) ==> CS[k] == case_text(ud.Name, ud.Tparams, ud.Cases[k])
+//@   ensures lemma-conform: join_prefix(CF, "", len(ud.Cases)) == join_prefix(conf_map(ud.Name, ud.Tparams, ud.Cases), "", len(ud.Cases))
+//@   ensures lemma-stringer: join_prefix(ST, "", len(ud.Cases)) == join_prefix(str_map(ud.Name, ud.Tparams, ud.Cases), "", len(ud.Cases))
+//@   ensures lemma-cases: join_prefix(CS, "", len(ud.Cases)) == join_prefix(case_map(ud.Name, ud.Tparams, ud.Cases), "", len(ud.Cases))
+//@   ensures functional: result == union_text(ud)
+//@   at after call udCSConformMethods#0: CF = c_CF
+//@   at after call udCSStringerMethods#0: ST = c_ST
+//@   at after call slice.Map#0: CS = ret
+
+// a type definition statement is emitted by the emitter of its kind
+//@ func dsToGo
+//@   props C03
+//@   panics may
+//@   ensures record: is(DefStmt_DRecordDef, ds) ==> result == record_text(DefStmt_DRecordDef_Value(ds))
+//@   ensures union: is(DefStmt_DUnionDef, ds) ==> result == union_text(DefStmt_DUnionDef_Value(ds))
 
 // a record is a struct with the same field names and mapped field types, in order
 //@ func rdffieldToGo
@@ -901,6 +962,7 @@ package main
 //@   ensures text: result == "type " + rdf.Name + tparams_decl(M, len(rdf.Tparams)) + " struct {\n" + join_prefix(F, "\n", len(rdf.Fields)) + "\n}"
 //@   ensures fields: forall k int :: 0 <= k && k < len(rdf.Fields) ==> F[k] == "  " + rdf.Fields[k].Name + " " + go_type(rdf.Fields[k].Ftype)
 //@   ensures mapped: forall k int :: 0 <= k && k < len(rdf.Tparams) ==> M[k] == rdf.Tparams[k] + " any"
+//@   ensures functional: result == record_text(rdf)
 //@   at after call writeTParamsIfAny#0: M = c_M
 //@   at after call slice.Map#0: F = ret
 
